@@ -228,6 +228,12 @@ class Env:
         """Term for a place read at position pos."""
         b = self.b
         root = p["l"]
+        if p["p"] and b.facts.int_newtypes:
+            q_ = b._through_newtypes(p)
+            if q_ is not p:
+                # the number inside a wrapper introduced after the review is the wrapper itself
+                t_ = self.place_term(q_, pos, depth)
+                return Term(t_.base, t_.off, t_.reads, b.facts.int_newtypes.get(t_.ty, t_.ty))
         if not p["p"]:
             return self.local_term(root, pos, depth)
         src = self._payload_source(p) if depth > 0 else None
@@ -315,6 +321,7 @@ class Env:
     def local_term(self, l, pos, depth=6):
         b = self.b
         ty = b.lty(l)
+        ty = b.facts.int_newtypes.get(ty, ty)     # a wrapper around a number introduced after the review is that number
         if (l in b.names and not self.is_arg(l) and depth > 0 and ty.startswith("&") and not ty.startswith("&mut")):
             # a named shared reference bound once (pattern bindings `Some(x)`, `ref x`, match-guard bindings): it denotes
             # the place it was taken from, like an unnamed reference temporary
@@ -462,6 +469,8 @@ class Env:
         if k == "discr":
             t = self.place_term(rv["p"], pos, depth)
             return Term("discr(%r)" % t, 0, t.reads, None)
+        if k == "agg" and rv["kind"].get("adt") in b.facts.int_newtypes and len(rv["ops"]) == 1:
+            return self.op_term(rv["ops"][0], pos, depth)
         if k == "agg":
             ops = [self.op_term(o, pos, depth) for o in rv["ops"]]
             kd = rv["kind"]
@@ -1485,7 +1494,7 @@ class Env:
                             q2 = op_place(d[3]["o"])
                             if q2 is not None and not q2["p"]:
                                 src = q2["l"]
-                    if src is None or ty_range(pb.lty(src)) is None:
+                    if src is None or ty_range(F.int_newtypes.get(pb.lty(src), pb.lty(src))) is None:
                         okall = False
                         break
                     # never reassigned and never mutably borrowed in the enclosing function
